@@ -25,11 +25,12 @@ PROPS = {
     "C04": {
         "level": "proof",
         "verus": ["limits", "parser_core", "parse_common"],
-        "frame": ["only_lexer_next_makes_limit_errors", "grammar_uses_primitives_only", "peek_while_is_the_plain_loop"],
+        "frame": ["only_lexer_next_makes_limit_errors", "peek_while_is_the_plain_loop"],
         "explanation": "Verus proves the LimitTracker contract (reached <=> current+1 > limit; balanced current; high-water mark) and the token-limit "
                        "contract of Lexer::next (at most `limit` calls of Cursor::advance; a limit error item iff the limit is exhausted, after which the lexer "
-                       "is finished and returns None forever); on the parser primitives and every recursion-guarded grammar function (ty::parse, selection_set, "
-                       "field_set, object_field, list_value): the tree text only grows at the end and stays a prefix of the input, errors are only appended and frozen once "
+                       "is finished and returns None forever); on the parser primitives and on EVERY grammar function (all of parser/grammar/*.rs, document() and the three entry points): every recursion-guarded function "
+                       "(ty::parse, selection_set, field_set, object_field, list_value) checks before it descends, selection lists are only parsed inside a counted nesting level, limit_err records a LIMIT error, "
+                       "document()'s `assert_eq!(recursion_limit.current, 0)` never fires; the tree text only grows at the end and stays a prefix of the input, errors are only appended and frozen once "
                        "the token limit was hit (no error after the token-limit error), recursion bookkeeping is balanced and never exceeds the limit. "
                        "On the compiler side (unit parse_common) Verus proves for apollo_compiler::parser::Parser::parse_common, for every parse closure: the apollo-parser Parser is built from exactly the "
                        "source text and the configured limits, and after the call recursion_reached / tokens_reached equal the high-water marks of the returned tree, whatever an earlier call left there.",
@@ -141,40 +142,43 @@ PROPS = {
     "C01": {
         "level": "proof",
         "verus": ["parser_core", "limits", "lexer"],
-        "frame": ["grammar_uses_primitives_only", "peek_while_is_the_plain_loop"],
-        "explanation": "PARTIAL. Verus proves on the extracted lexer state machine (termination, cursor preconditions) and on the extracted parser primitives (21) and grammar functions (ty, standalone_ty, ty::parse, named_type, selection_set, field_set, and the whole "
-                       "value cycle value / list_value / object_value / object_field / enum_value / default_value) and entry points parse_type / parse_selection_set: no panic (pop's expect is unreachable: every caller has a "
+        "frame": ["peek_while_is_the_plain_loop"],
+        "explanation": "Verus proves on the extracted lexer state machine (termination, cursor preconditions) and on the WHOLE extracted parser -- the 26 Parser primitives, all 66 grammar functions of parser/grammar/*.rs "
+                       "including document() and select_definition, and the entry points Parser::parse / parse_type / parse_selection_set: no panic (pop's expect is unreachable: every caller has a "
                        "look-ahead token; push_ignored's unreachable!() is unreachable by the struct invariant; unreachable!() arms of the entry points; no arithmetic overflow "
-                       "in LimitTracker); termination (next_token, skip_ignored and the recursion of ty::parse decrease a lexer measure); recursion depth of the extracted recursive "
-                       "functions is bounded by the recursion limit; recursion bookkeeping is balanced (document() asserts it is).",
-        "assumptions": ['the assumed Lexer contract in the parser_core prelude (items carry the remaining text in order; a measure decreases per item; None only after the limit or at the end) -- C03, not proved', 'Name tokens produced by the lexer satisfy the Name grammar, so grammar::name::validate_name never reports (C03, not proved)', "the ~55 grammar functions that are not extracted keep the primitives' preconditions (they peek before they consume) and reach tokens only through the primitives (second half: frame check grammar_uses_primitives_only)", 'rowan GreenNodeBuilder: token() appends text, start/finish/wrap add none; Drop of NodeGuard has no spec', 'recursion limit < usize::MAX'],
+                       "in LimitTracker); termination (next_token, skip_ignored and the recursion of ty::parse decrease a lexer measure); every repetition loop of the grammar (the inlined peek_while / peek_while_kind / parse_separated_list "
+                       "loops, 17 of them, and document()'s definition loop) strictly consumes input on every iteration that continues -- for every input, which is what the combinators' debug assertion "
+                       "'iteration must advance parsing' demands -- so parsing terminates; the mutual recursion selection_set -> selection -> field / inline_fragment -> selection_set and value -> list_value / object_value -> value "
+                       "decreases (remaining input, rank); recursion depth is bounded by the recursion limit; recursion bookkeeping is balanced (document()'s assert_eq! on it is proved, not assumed); "
+                       "expect_end_of_input adds nothing to the tree after the root node was closed.",
+        "assumptions": ['the Lexer contract in the parser_core prelude (items carry the remaining text in order; a measure decreases per item; None only after the limit or at the end; the EOF token is empty and comes when the text is used up; a `{` token is the text "{") -- these statements are PROVED for Cursor::advance in unit `lexer`, but the two units are matched by reading, not by the verifier', 'Name tokens produced by the lexer satisfy the Name grammar, so grammar::name::validate_name never reports (proved for Cursor::advance in unit lexer; validate_name itself is a no-op shim here)', 'Parser::peek_n / peek_token_n / peek_data_n (iterator chain over a CLONE of the lexer, `&self`): results unconstrained, parser state untouched', 'rowan GreenNodeBuilder: token() appends text, start/finish/wrap add none; Drop of NodeGuard has no spec', 'recursion limit < usize::MAX'],
         "not_decided": ["the composition of the two units: parser_core ASSUMES a Lexer contract that the lexer unit PROVES for Cursor::advance (same statements, matched by reading, not machine-checked across the two files)",
-                        "the ~55 grammar functions that are not extracted, and the closure combinators peek_while / peek_while_kind / parse_separated_list",
+                        "the closure combinators peek_while / peek_while_kind / parse_separated_list are verified in beta-reduced form at each call site (frame check pins their bodies), not as generic functions; their debug_assert!(before != current_token) is replaced by the stronger 'fuel strictly decreases'",
                         "rowan's own assertions (single root: was the panic fixed in d0c8925; not visible to a contract), actual stack size per frame", "apollo_compiler::parser wrappers"],
     },
     "C02": {
         "level": "other",   # deductive verification, but one obligation is a KNOWN FINDING (genuine defect): discharged < obligations, so not a proof-level record
         "verus": ["parser_core", "lexer"],
-        "frame": ["grammar_uses_primitives_only", "document_ends_with_flush"],
+        "frame": ["peek_while_is_the_plain_loop"],
         "explanation": "Contract-based deductive verification (Verus) with ONE KNOWN FINDING, hence not claimed at proof level. Conserved quantity all_text = tree text + queued tokens + look-ahead token + unread input: Verus proves every parser primitive "
-                       "and every extracted grammar function conserves it in order (nothing lost, nothing duplicated, nothing reordered), push_ignored flushes the queue, and "
-                       "lemma_lossless derives tree text == input from conservation plus document()'s final state. ty::parse violates it at one exit (known finding: the token "
+                       "and EVERY grammar function (all of parser/grammar/*.rs) conserves it in order (nothing lost, nothing duplicated, nothing reordered); document() is proved to end with the queue flushed, the look-ahead "
+                       "empty (EOF) and the lexer exhausted unless the token limit was hit; and Parser::parse is proved to return a tree whose text IS the input when no token limit was hit (in-body obligation) and a prefix of it always (postcondition). ty::parse violates it at one exit (known finding: the token "
                        "after `[` is dropped when no type starts there).",
-        "assumptions": ['the assumed Lexer contract in the parser_core prelude (items carry the remaining text in order; a measure decreases per item; None only after the limit or at the end) -- C03, not proved', 'Name tokens produced by the lexer satisfy the Name grammar, so grammar::name::validate_name never reports (C03, not proved)', "the ~55 grammar functions that are not extracted keep the primitives' preconditions (they peek before they consume) and reach tokens only through the primitives (second half: frame check grammar_uses_primitives_only)", 'rowan GreenNodeBuilder: token() appends text, start/finish/wrap add none; Drop of NodeGuard has no spec', 'recursion limit < usize::MAX'],
-        "not_decided": ["UTF-8 boundaries of token ranges (token data are &str slices: Rust's type invariant, not proved)", "document() and the unextracted grammar functions themselves", "the lexer half of losslessness (C03)"],
+        "assumptions": ['the Lexer contract in the parser_core prelude (items carry the remaining text in order; a measure decreases per item; None only after the limit or at the end; the EOF token is empty and comes when the text is used up; a `{` token is the text "{") -- these statements are PROVED for Cursor::advance in unit `lexer`, but the two units are matched by reading, not by the verifier', 'Name tokens produced by the lexer satisfy the Name grammar, so grammar::name::validate_name never reports (proved for Cursor::advance in unit lexer; validate_name itself is a no-op shim here)', 'Parser::peek_n / peek_token_n / peek_data_n (iterator chain over a CLONE of the lexer, `&self`): results unconstrained, parser state untouched', 'rowan GreenNodeBuilder: token() appends text, start/finish/wrap add none; Drop of NodeGuard has no spec', 'recursion limit < usize::MAX'],
+        "not_decided": ["UTF-8 boundaries of token ranges (token data are &str slices: Rust's type invariant, not proved)", "the lexer half of losslessness is proved in unit `lexer` and assumed here (see assumptions)"],
     },
     "C07": {
         "level": "proof",
         "verus": ["parser_core", "parse_common"],
-        "frame": ["grammar_uses_primitives_only"],
+        "frame": ["peek_while_is_the_plain_loop"],
         "explanation": "Verus proves for parse_type, for every token stream: the returned tree has no error only if the kinds of the significant tokens added to the tree "
                        "are exactly one Type of the grammar Type :: Name | [ Type ] | Name ! | [ Type ] ! (ghost sequence of significant token kinds; ty::parse's postcondition "
                        "type_grammar, expect's 'consumes the expected token or reports'), and the look-ahead after skipping ignored tokens is EOF (nothing else is left); a missing type "
                        "is always reported. For parse_selection_set only the end-of-input clause is proved. The tree reports exactly the parser's errors. "
                        "Compiler side (unit parse_common): every parser error whose offset fits 32 bits becomes exactly one diagnostic, in order (SyntaxError / ParserLimit), so a syntax error is never dropped on the way to "
                        "apollo_compiler::parser::parse_type / parse_field_set, which return Err iff the diagnostic list is non-empty.",
-        "assumptions": ['the assumed Lexer contract in the parser_core prelude (items carry the remaining text in order; a measure decreases per item; None only after the limit or at the end) -- C03, not proved', 'Name tokens produced by the lexer satisfy the Name grammar, so grammar::name::validate_name never reports (C03, not proved)', "the ~55 grammar functions that are not extracted keep the primitives' preconditions (they peek before they consume) and reach tokens only through the primitives (second half: frame check grammar_uses_primitives_only)", 'rowan GreenNodeBuilder: token() appends text, start/finish/wrap add none; Drop of NodeGuard has no spec', 'recursion limit < usize::MAX'],
-        "not_decided": ["that the tokens consumed by parse_selection_set form exactly ONE selection set (the selection grammar runs through closures: selection() is a shim)",
+        "assumptions": ['the Lexer contract in the parser_core prelude (items carry the remaining text in order; a measure decreases per item; None only after the limit or at the end; the EOF token is empty and comes when the text is used up; a `{` token is the text "{") -- these statements are PROVED for Cursor::advance in unit `lexer`, but the two units are matched by reading, not by the verifier', 'Name tokens produced by the lexer satisfy the Name grammar, so grammar::name::validate_name never reports (proved for Cursor::advance in unit lexer; validate_name itself is a no-op shim here)', 'Parser::peek_n / peek_token_n / peek_data_n (iterator chain over a CLONE of the lexer, `&self`): results unconstrained, parser state untouched', 'rowan GreenNodeBuilder: token() appends text, start/finish/wrap add none; Drop of NodeGuard has no spec', 'recursion limit < usize::MAX'],
+        "not_decided": ["that the tokens consumed by parse_selection_set form exactly ONE selection set (selection() and everything below it is now verified for conservation / termination, but the selection GRAMMAR is not specified)",
                         "the last step of the compiler-side mapping: parse_type / parse_field_set turn a non-empty DiagnosticList into Err (errors.into_result(): closures, not extracted)"],
     },
 }
